@@ -271,6 +271,34 @@ def groupby_sorted(ctx):
     ctx.floor(n, 2, 'groupby calls')
 
 
+@PROP.obligation('C08.bump-replaces', canaries=[
+    mut.replace_stmt(W, 'WalletTransaction.bumpfee', 'if self.pushed:', 'if self.pushed and broadcast:\n    self.hdwallet.transaction_delete(old_txid)', 'the replaced transaction stays stored unless the bump is broadcast at once'),
+])
+def bump_replaces(ctx):
+    """WalletTransaction.bumpfee re-signs the transaction under a new txid. When the old one had been pushed (and stored) it is removed
+    from the wallet on EVERY normal path, whether or not the replacement is broadcast in the same call (must-pass-through with
+    `self.pushed` true): otherwise the replaced transaction and its replacement are both stored, two stored transactions spend the
+    same outpoints and both change outputs count as unspent."""
+    from ..cfg import node_asts
+    q = W + ':WalletTransaction.bumpfee'
+    fn = ctx.repo.func(q)
+    g = build_cfg(fn)
+    dels = set(n.id for n in g.nodes if any(isinstance(c, ast.Call) and norm(c.func) in ('self.hdwallet.transaction_delete', 'self.delete') for frag in node_asts(n) for c in ast.walk(frag)))
+    if not dels:
+        ctx.violate(q, 'the replaced transaction is never removed from the wallet', fn, 'the replaced transaction and its replacement are both stored')
+        return
+    off = set()
+    for n in g.nodes:
+        if n.kind == 'test' and norm(n.ast) == 'self.pushed':
+            off |= set(g.false_edge(n.id))
+    p = g.path_avoiding([g.exit_return], dels, blocked_edges=off, skip_exc=True)
+    ctx.saw('bumpfee: every normal path with self.pushed true passes through transaction_delete(old_txid): %s' % (p is None))
+    if p is not None:
+        tests = [norm(g[i].ast) for i in p if g[i].kind == 'test' and g[i].ast is not None]
+        ctx.violate(q, 'with self.pushed true there is a normal path that keeps the replaced transaction (path %s, decided by %s)' % (g.describe_path(p)[:80], tests[-2:]), fn,
+                    'bumpfee() with the default broadcast=False followed by send(): balance and utxos() count the change of both transactions, also after reopening')
+
+
 @PROP.obligation('C08.balance-reset', canaries=[
     mut.replace_stmt(W, 'Wallet._balance_update', "b['balance'] = 0", 'pass', 'stale totals survive when nothing is unspent'),
 ])
